@@ -56,6 +56,9 @@ def run(res, tier, seed):
         st = vlib.mc(os.path.join(vlib.SPEC, "MC_TcpFraming.tla"), os.path.join(vlib.SPEC, cfg + ".cfg"), wd,
                      workers=8, allow_zero=("ReadZeroFrame",) if cfg == "MC_TcpFraming" else ())
         res.add_mc(cfg, st)
+    # the server-side wrapper's idle timer (re-armed by every delivery); bound through VERIF_TCP_WRAP=timeout
+    st = vlib.mc(os.path.join(vlib.SPEC, "IdleTimer.tla"), os.path.join(vlib.SPEC, "MC_IdleTimer.cfg"), wd, workers=2)
+    res.add_mc("MC_IdleTimer", st)
     # ---- R (+ T on the same runs)
     gens = GEN_THOROUGH if tier == "thorough" else GEN_QUICK
     traces = []
